@@ -349,7 +349,7 @@ func runC11(c *fw.Ctx) {
 				// file set) and restored again; the laws hold for both new pairs of maps
 				// (in the thorough tier, which takes every corpus file, the second pass and the printing
 				// entry points run for every fourth corpus file and for every snippet)
-				extra := c.Quick() || i%4 == 0 || strings.HasPrefix(p, "snippet:")
+				extra := (c.Quick() || i%4 == 0 || strings.HasPrefix(p, "snippet:")) && len(src) < 150000 // (the laws cost a quadratic term in the longest child list: the huge table files get the base configurations only)
 				if extra && (cfg == "plain" || cfg == "goast+imports") {
 					var d2 *decorator.Decorator
 					if withImports {
